@@ -23,7 +23,7 @@ func VH_c01_response() {
 	w := vhNewWorld(vhWorldOpts{})
 	// A's LoadControl client is bound to F1
 	bm := w.L.BindingManager().(*BindingManager)
-	bm.bindingNum = 1
+	vhSetBindingNum(bm, 1)
 	bm.bindingEntries = []*api.BindingEntry{{Id: 1, ServerFeature: w.F1, ClientFeature: w.rA.FeatureByAddress(vhAddr("A", []uint{1}, 1))}}
 	w.F1.SetData(model.FunctionTypeLoadControlLimitListData, vhLimitList(1, false))
 	w.F2.SetData(model.FunctionTypeMeasurementListData, &model.MeasurementListDataType{MeasurementData: []model.MeasurementDataType{{MeasurementId: util.Ptr(model.MeasurementIdType(3))}}})
